@@ -23,7 +23,7 @@ BASE = dict(
     n_funcs=(1, 4), n_globals=(0, 4), main_stmts=(4, 10), func_stmts=(2, 6),
     expr_depth=3, stmt_depth=3, hostile=0.04, strings=0.5, logic_any=0.15,
     shrink=0.25, recursion=0.3, vla=0.4, while_loops=0.3, shadow=0.2, main_args=0.4,
-    const_fold_safe=True, time=False, unreachable=0.0, big_lits=0.0, capture=0.5,
+    const_fold_safe=True, time=False, unreachable=0.0, big_lits=0.0, capture=0.5, overloads=0.6,
 )
 
 PROFILES = {
@@ -44,6 +44,7 @@ class ProgGen:
         self.gsc = {}
         self.marks = 0
         self.bump = None
+        self.overloads = []
 
     # ------------------------------------------------------------- naming
     def name(self, p):
@@ -439,9 +440,50 @@ class ProgGen:
                 out.append(If(self.expr(BOOL, sc, 2), [Ret(self.coerced(rt, sc, 2) if rt != EMPTY else None)]))
             elif c < 0.965 and self.bump is not None and 'gi' in sc and sc['gi'].glob:
                 out.extend(self.capture_stmts(sc))
+            elif c < 0.972:
+                # the remaining builtins: sleep(int), debug(), progress()
+                k = r.random()
+                if k < 0.5:
+                    out.append(ExprStmt(Call('sleep', [self.coerced(INT, sc, 2)])))
+                else:
+                    out.append(ExprStmt(Call(r.choice(['debug', 'progress']), [])))
+            elif c < 0.985 and self.overloads:
+                out.extend(self.overload_call(sc))
             else:
                 out.extend(self.call_stmt(sc, 2))
         return out
+
+    # ---------------------------------------------------------- overloads
+    def make_overloads(self):
+        """a family of functions sharing one name; each member prints a unique tag"""
+        r = self.r
+        nm = self.name('ov')
+        types = r.sample([INT, BYTE, BOOL, STRING], r.randint(2, 3))
+        ret = r.choice([EMPTY, INT])
+        fam = []
+        for t in types:
+            self.marks += 1
+            body = [ExprStmt(Call('write', [Lit(STRING, f'<{nm}:{t}>'.encode())]))]
+            if t in (INT, BYTE):
+                body.append(ExprStmt(Call('write', [Cast(Var('q', t), INT) if t == BYTE else Var('q', INT)])))
+            if ret != EMPTY:
+                body.append(Ret(Lit(INT, len(fam) + 1)))
+            fam.append(Func(nm, [('q', t, False)], ret, body, tag='ov'))
+        return fam
+
+    def overload_call(self, sc):
+        """call resolved by the documented rule: the member whose parameter type matches the argument's static type
+        exactly, otherwise the first declared member the argument can be coerced to"""
+        r = self.r
+        fam = r.choice(self.overloads)
+        have = [f.params[0][1] for f in fam]
+        choices = [(f, f.params[0][1]) for f in fam]            # exact matches
+        if BYTE not in have and INT in have:
+            choices.append((fam[have.index(INT)], BYTE))           # byte -> int is the only member it can be coerced to
+        f, at = r.choice(choices)
+        arg = self.expr(at, sc, 2)
+        call = Call(f, [arg])
+        return [ExprStmt(call) if f.ret == EMPTY else ExprStmt(Call('write', [call]))]
 
     def capture_stmts(self, sc):
         """value-capture discipline: a mutable global is read (as index, operand, argument, element) and a
@@ -624,6 +666,8 @@ class ProgGen:
         gl, gsc = self.globals_()
         self.add_capture_helpers(gl, gsc)
         self.gsc = gsc
+        if self.chance('overloads'):
+            self.overloads.append(self.make_overloads())
         lo, hi = self.cfg['n_funcs']
         nf = r.randint(lo, hi)
         for _ in range(nf):
@@ -649,7 +693,8 @@ class ProgGen:
                     cn = r.choice(cands)
                     a.append(Var(cn, sc[cn].t))
                 main.body.append(ExprStmt(Call('writeln', [Call(f, a)])))
-        prog = Program(gl, [main] + list(self.funcs) + ([self.bump] if self.bump is not None else []))
+        prog = Program(gl, [main] + list(self.funcs) + ([self.bump] if self.bump is not None else [])
+                       + [f for fam in self.overloads for f in fam])
         return prog, args
 
 
